@@ -39,7 +39,8 @@ class FaultStream:
     """A binary stream over bytes that counts read/seek/tell calls, logs the strictness setting at each call,
     and raises at the fail_at-th call."""
 
-    def __init__(self, data, log, fail_at=None):
+    def __init__(self, data, log, fail_at=None, pipe=False):
+        self._pipe = pipe               # what opening a named pipe gives: readable, not seekable
         self._f = io.BytesIO(data)
         self._log = log
         self._n = 0
@@ -79,14 +80,18 @@ class FaultStream:
         return True
 
     def seekable(self):
-        return True
+        return not self._pipe
 
     def seek(self, pos, whence=0):
         self._tick("seek")
+        if self._pipe:
+            raise io.UnsupportedOperation("underlying stream is not seekable")
         return self._f.seek(pos, whence)
 
     def tell(self):
         self._tick("tell")
+        if self._pipe:
+            raise io.UnsupportedOperation("underlying stream is not seekable")
         return self._f.tell()
 
     def close(self):
@@ -126,7 +131,7 @@ def remove_nested_observers(saved):
         mod.read_sunvox_file = orig
 
 
-def one_load(api, tid, data, flag0, kind, fail_at=None, open_fails=None):
+def one_load(api, tid, data, flag0, kind, fail_at=None, open_fails=None, pipe=False, warn_error=False):
     """open_fails: None | "missing" | "directory" | "denied" - the library's own open of the path fails before any read."""
     import rv.errors
     log = []
@@ -143,7 +148,7 @@ def one_load(api, tid, data, flag0, kind, fail_at=None, open_fails=None):
             def fake_open(self, *a, **k):
                 if open_fails == "denied":
                     raise PermissionError("injected: open refused")
-                st["stream"] = FaultStream(data, log, fail_at)
+                st["stream"] = FaultStream(data, log, fail_at, pipe=pipe)
                 return st["stream"]
             pathlib.Path.open = fake_open
             arg = "/nonexistent/verif-c18.sunvox" if tid.__hash__() % 2 else pathlib.Path("/nonexistent/verif-c18.sunvox")
@@ -154,8 +159,12 @@ def one_load(api, tid, data, flag0, kind, fail_at=None, open_fails=None):
             raise Abort("load does not terminate in time (corrupted input)")
         old_handler = signal.signal(signal.SIGALRM, on_alarm)
         signal.setitimer(signal.ITIMER_REAL, 1.5)
+        import warnings
         try:
-            api.read_sunvox_file(arg)
+            with warnings.catch_warnings():
+                if warn_error:                  # the caller's process turns warnings into errors (python -W error, pytest filterwarnings)
+                    warnings.simplefilter("error")
+                api.read_sunvox_file(arg)
             end = {"op": "return", "exc": ""}
         except BaseException as e:
             end = {"op": "raise", "exc": type(e).__name__}
@@ -231,13 +240,33 @@ def run(ctx):
     datas.append(("gen-nested-depth3.sunvox", p.read()))
     traces = []
 
-    def add(name, data, flag0, kind, fail_at=None):
-        t = one_load(api, "%s|%s|%s|%s|%d" % (name, kind, flag0, fail_at, len(traces)), data, flag0, kind, fail_at)
+    def add(name, data, flag0, kind, fail_at=None, pipe=False, warn_error=False):
+        t = one_load(api, "%s|%s%s%s|%s|%s|%d" % (name, kind, "-pipe" if pipe else "", "-Werror" if warn_error else "", flag0, fail_at, len(traces)),
+                     data, flag0, kind, fail_at, pipe=pipe, warn_error=warn_error)
         traces.append(t)
         raised = t["events"][-1]["op"] == "raise"
         nested = any(e["op"] == "nested_enter" for e in t["events"])
         ctx.count_case((name, kind, flag0, fail_at, len(data), hash(data)), nontrivial=raised or nested)
         return t
+    # files that carry controller values beyond the nominal ranges (the lenient branch of the reader is really taken),
+    # also with warnings turned into errors
+    from .. import fmt, specdata
+    _, spec = specdata.write(ctx)
+    oor = []
+    for name, data in datas:
+        if name in ("amplifier.sunsynth", "metamodule.sunsynth", "gen-nested-depth3.sunvox", "echo.sunsynth"):
+            base_ = tlv.to_json_nested(data)
+            for sec, _c in fmt.ranged_cval_sections(base_, spec)[:2]:
+                oor.append((name + ":beyond-range", tlv.from_json_nested(fmt.out_of_range_variant(base_, sec, rnd))))
+    for name, data in oor:
+        for flag0 in (True, False):
+            for kind in ("stream", "path"):
+                add(name, data, flag0, kind)
+                add(name, data, flag0, kind, warn_error=True)
+    for name, data in datas[:: (6 if q else 1)]:
+        for flag0 in (True, False):
+            add(name, data, flag0, "path", pipe=True)        # a path that names a pipe
+            add(name, data, flag0, "stream", warn_error=True)
     for name, data in datas:
         # fault-free, both initial values, both ways of opening
         base = None
